@@ -614,6 +614,63 @@ func c10StateAccept(c *Ctx) {
 	if sites == 0 {
 		c.info("NewSparseFile:accepted-state-is-own", ls.Pos(), "loadState has no call site")
 	}
+	// the init state is read before the save file is replaced: StateSaveFile and StateInitFile
+	// may name the same file (a lost cache file re-warmed from the state saved for it); a
+	// WriteState that can run before the init file is opened empties what is about to be read
+	if nf := c.mustFn("NewSparseFile"); nf != nil {
+		var reads, writes []ssa.Instruction
+		instrs(nf, func(_ *ssa.BasicBlock, _ int, ins ssa.Instruction) {
+			call, ok := ins.(*ssa.Call)
+			if !ok {
+				return
+			}
+			switch callee(call) {
+			case "os.Open", "os.OpenFile", "os.ReadFile", "io/ioutil.ReadFile":
+				if len(call.Call.Args) > 0 && hasOrigin(call.Call.Args[0], func(o string) bool { return o == "field:SparseFileOptions.StateInitFile" }) {
+					reads = append(reads, ins)
+				}
+			case "(*desync.SparseFile).WriteState":
+				writes = append(writes, ins)
+			}
+		})
+		canPrecede := func(a, b ssa.Instruction) bool {
+			if a.Block() == b.Block() {
+				ia, ib := -1, -1
+				for i, x := range a.Block().Instrs {
+					if x == a {
+						ia = i
+					}
+					if x == b {
+						ib = i
+					}
+				}
+				if ia < ib {
+					return true
+				}
+			}
+			for _, s := range a.Block().Succs {
+				if reachableFrom(s, nil)[b.Block()] {
+					return true
+				}
+			}
+			return false
+		}
+		for _, r := range reads {
+			bad := false
+			for _, w := range writes {
+				if w.Parent() == r.Parent() && canPrecede(w, r) {
+					bad = true
+				}
+			}
+			// an observation, not a clause of the property: pre-loading is best effort and reads
+			// stay correct without it, so this never raises an alarm
+			if bad {
+				c.info("NewSparseFile:init-state-read-first", r.Pos(), "observation: WriteState (which replaces the file named by StateSaveFile) can run before the init state file is opened: when both options name the same file - re-warming a lost cache file from its saved state - the state is emptied before it is read and nothing is pre-loaded (reads stay correct)")
+			} else {
+				c.ok("NewSparseFile:init-state-read-first", r.Pos(), "the init state file is opened before any WriteState of this function can run")
+			}
+		}
+	}
 }
 
 func c10Locks(c *Ctx) {
